@@ -648,7 +648,7 @@ def unsound_oracle_call(rec, o):
                 return "properties-path"
             if "items" in req:
                 return "items-path"
-            return "from-schema"
+            return "from-schema-answer-violates-request"
     return None
 
 
@@ -703,6 +703,29 @@ def has_fractional_keyword(schema):
     return fr
 
 
+def oracle_shape(path):
+    return (f"generate_from_schema:{path}" if path.startswith("from-schema") else
+            f"generate_from_schema:{path}-ignores-sibling-keywords")
+
+
+def descend(schema, o):
+    """follow a positive object / array value down to the member that its own sub-schema rejects"""
+    while True:
+        sdict = schema if isinstance(schema, dict) else {}
+        props, value = sdict.get("properties"), o["value"]
+        step = None
+        if isinstance(value, dict) and isinstance(props, dict):
+            for name, v in value.items():
+                if name in props and py_valid(props[name], v) is False:
+                    d = o["desc"]
+                    sub = d[len(f"object-valid:{name}:"):] if d.startswith(f"object-valid:{name}:") else "valid-object"
+                    step = (props[name], {**o, "value": v, "desc": sub})
+                    break
+        if step is None:
+            return schema, o
+        schema, o = step
+
+
 def shape_of_violation(schema, o, rec):
     """narrow 'failing shape' of a label violation produced by cover_schema_iter: the first root cause (findings/C03.json)
     whose *test* explains this very value, else an 'unexplained' tag carrying mode and description class.
@@ -736,7 +759,7 @@ def shape_of_violation(schema, o, rec):
             return "additionalProperties-schema-treated-as-false"
         path = unsound_oracle_call(rec, o)
         if path:
-            return f"generate_from_schema:{path}-ignores-sibling-keywords"
+            return oracle_shape(path)
         if inner == "not-matching-format" and isinstance(node, dict) and node.get("format") not in FORMAT_CHECKER.checkers:
             return "negative-format-not-checked"
         kw = parts[-1] if parts else ""
@@ -772,7 +795,7 @@ def shape_of_violation(schema, o, rec):
         return "positive-on-crossing-bounds"
     path = unsound_oracle_call(rec, o)
     if path:
-        return f"generate_from_schema:{path}-ignores-sibling-keywords"
+        return oracle_shape(path)
     if inner in NUMERIC_CLASSES:
         if has_integer_type_with_fraction(schema, value) and "integer" in types_of(sdict) \
                 and py_valid({**sdict, "type": "number"}, value) is True:
@@ -886,8 +909,9 @@ def cover_mechanism(chk, drv, cases, vz, vx):
             if ok and as_described is False:
                 # rejected, but not for the reason the description gives
                 chk.feature(f"{mech}:negative-not-as-described")
+                upath = unsound_oracle_call(rec, o)
                 shape = ("draft4-boolean-exclusive-bound-emitted-as-value" if isinstance(o["value"], bool)
-                         else f"negative-{o['desc']}-not-as-described")
+                         else oracle_shape(upath) if upath else f"negative-{o['desc']}-not-as-described")
                 chk.violation(f"C03:cover_schema_iter:{shape}",
                               f"cover_schema_iter describes {o['value']!r} as '{o['text']}' (location {o['loc']}) but the value "
                               f"does not violate that keyword", {"mechanism": "cover", "schema": schema, "modes": mk,
@@ -909,21 +933,30 @@ def _encodable(out):
 
 
 def resolve_cover_violations(chk, drv, pending):
-    """give every label violation its signature; the numeric positives are attributed to F6/F7 with the single-site
-    variants of the model"""
-    reqs = []
-    for schema, mk, loc, o, orc, rec in pending:
-        if orc is not None and o["mode"] == "positive":
-            for a, b in (("repaired", "repaired"), ("asFound", "repaired"), ("repaired", "asFound")):
-                reqs.append(cover_request(schema, orc, mk, loc, a, b))
+    """give every label violation its signature; positive numbers (also nested in objects) are attributed to F6/F7/F6c
+    with the single-site variants of the `_positive_number` model on the sub-schema that rejects them"""
+    reqs, numeric = [], []
+    for idx, (schema, mk, loc, o, orc, rec) in enumerate(pending):
+        if o["mode"] != "positive":
+            continue
+        sub, oo = descend(schema, o)
+        if contains_key(sub, COMBINATORS):
+            continue
+        if oo["desc"] in ("minimum-value", "maximum-value", "near-boundary-number") and isinstance(sub, dict) \
+                and isinstance(oo["value"], (int, float)) and not isinstance(oo["value"], bool):
+            try:
+                for a, b in (("repaired", "repaired"), ("asFound", "repaired"), ("repaired", "asFound")):
+                    reqs.append(("posnum", {"schema": enc(sub), "orc": [{"val": 0}], "vz": a, "vx": b}))
+                numeric.append((idx, sub, oo))
+            except Unmodelled:
+                pass
     outs = iter(drv.batch(reqs))
-    for schema, mk, loc, o, orc, rec in pending:
-        inner = o["desc"].split(":")[-1]
-        sig = None
-        if orc is not None and o["mode"] == "positive":
-            m_rr, m_ar, m_ra = next(outs), next(outs), next(outs)
-            if inner in ("minimum-value", "maximum-value", "near-boundary-number") and o["desc"] == inner:
-                sig = number_signature(schema, o, m_rr, m_ar, m_ra)
+    sigs = {}
+    for idx, sub, oo in numeric:
+        m_rr, m_ar, m_ra = next(outs), next(outs), next(outs)
+        sigs[idx] = number_signature(sub, oo, m_rr, m_ar, m_ra)
+    for idx, (schema, mk, loc, o, orc, rec) in enumerate(pending):
+        sig = sigs.get(idx)
         if sig is None:
             shape = shape_of_violation(schema, o, rec)
             sig = KF_EXCL if shape == "number-exclusive-bound-misread" else f"C03:cover_schema_iter:{shape}"
